@@ -1,5 +1,5 @@
-// Package checks holds one bounded-exhaustive check per property plus the shared reporting code.
-package checks
+// Package report is the shared reporting code: results, evidence files, known findings.
+package report
 
 import (
 	"crypto/sha1"
@@ -148,8 +148,16 @@ func (r *Result) Finish() int {
 			"occurrences": r.violCount[k], "tier": r.Tier}
 		b, _ := json.MarshalIndent(doc, "", " ")
 		os.WriteFile(path, b, 0o644)
-		fmt.Printf("VIOLATION property=%s replay=%s\n", r.Property, path)
-		fmt.Printf("  key=%s\n  what=%s\n", k, v.What)
+		if unlisted <= 40 {
+			fmt.Printf("VIOLATION property=%s replay=%s\n", r.Property, path)
+			what := v.What
+			if len(what) > 700 {
+				what = what[:700] + "..."
+			}
+			fmt.Printf("  key=%s\n  what=%s\n", k, what)
+		} else if unlisted == 41 {
+			fmt.Printf("  ... further violations are listed in %s/replays/ only\n", Root)
+		}
 	}
 	r.writeEvidence(matched, unlisted)
 	fmt.Printf("%s %s: evaluations=%d distinct_nontrivial=%d states=%d transitions=%d exhaustive=%v known=%d violations=%d wall=%.1fs\n",
@@ -181,6 +189,9 @@ func (r *Result) writeEvidence(matched []string, unlisted int) {
 	}
 	for k, v := range r.Extra {
 		cov[k] = v
+	}
+	if r.Assumptions == nil {
+		r.Assumptions = []string{}
 	}
 	ev := map[string]interface{}{
 		"property_id": r.Property,
